@@ -9,6 +9,8 @@ import (
 	"pgregory.net/rapid"
 
 	"github.com/shutter-network/rolling-shutter/rolling-shutter/app"
+	"github.com/shutter-network/rolling-shutter/rolling-shutter/shmsg"
+	"verif/harness/apphist"
 )
 
 // C12 — validator updates always lead to the intended, live validator set.
@@ -119,4 +121,56 @@ func TestC12_DiffPowermaps(t *testing.T) {
 			rec.Case(fmt.Sprintf("diff(%d,%d)", a, b), a != b && len(ups) > 0, "map-pair")
 		}
 	}
+}
+
+// TestC12_ForkBoundary aims at the block in which the check-in update fork becomes active: every genesis
+// keyper checks in, block-seen reports let the genesis configuration take over, then in each of the
+// blocks H-2 .. H+2 around the fork height H a generated keyper checks in again with another validator
+// key. Same oracle as TestC12_History (folded set = the model's intended set after every block).
+func TestC12_ForkBoundary(t *testing.T) {
+	rec := recorder("C12")
+	rec.AddRule("(c) fork boundary: fork height H in 2..6 (or fork enabled from the start / disabled), all genesis keypers check in in block 1, then one generated keyper per block of H-2..H+2 checks in again with a different validator key (0-2 other generated steps per block); same folded-set oracle after every block; non-trivial = a key change delivered in block H-1, H or H+1")
+	runRapid(t, N(150, 20000), func(rt *rapid.T) {
+		g := genGenesis(rt)
+		c := NewChain(g, 1, func(sig, f string, a ...any) { fatalf(rt, sig, f, a...) })
+		c.CheckVals = true
+		c.Focus = "validators"
+		c.PoolKeys = 6
+		checkin := func(s, vkIdx int, tag string) {
+			m := &shmsg.Message{Payload: &shmsg.Message_CheckIn{CheckIn: &shmsg.CheckIn{ValidatorPublicKey: uni.ValKeys[vkIdx%14], EncryptionPublicKey: uni.EncKeys[s%4]}}}
+			c.DeliverTx(uni.MakeTx(s, apphist.ChainID, c.nextNonce(), m), tag)
+		}
+		for _, k := range g.Keypers {
+			checkin(k, 2*k, fmt.Sprintf("s%d/first-checkin", k))
+		}
+		for _, k := range g.Keypers {
+			c.DeliverTx(uni.MakeTx(k, apphist.ChainID, c.nextNonce(), shmsg.NewBlockSeen(0)), fmt.Sprintf("s%d/seen(0)", k))
+		}
+		c.EndBlock()
+		H := g.ForkHeight
+		if H == 0 {
+			H = 3
+		}
+		near := false
+		for c.Height < H+2 {
+			// the block being built is c.Height+1
+			for i := rapid.IntRange(0, 2).Draw(rt, "extra"); i > 0; i-- {
+				tx, tag := c.genTx(rt)
+				c.DeliverTx(tx, tag)
+			}
+			if b := c.Height + 1; b >= H-2 {
+				k := rapid.SampledFrom(g.Keypers).Draw(rt, "changer")
+				checkin(k, 2*k+1+int(b), fmt.Sprintf("s%d/key-change@%d", k, b))
+				if b >= H-1 && b <= H+1 && g.ForkEnabled {
+					near = true
+				}
+			}
+			c.EndBlock()
+		}
+		labels := []string{"fork-boundary"}
+		if near {
+			labels = append(labels, "key-change-in-a-block-next-to-the-fork-height")
+		}
+		rec.Case("forkboundary|"+c.DescString(), near, labels...)
+	})
 }
